@@ -98,7 +98,11 @@ fn errors(prob: &Prob, s: &Solution) -> (f64, Vec<f64>, Vec<f64>) {
 /// accepts the very same step -- see DESIGN.md section 5, finding K1.)  Signature: in the run without
 /// t_eval the error first exceeds `bound` at an accepted step that is at least 2.5 times longer than
 /// its predecessor, and the error before that step was below 10 % of the bound.
-fn single_overlong_step(c: &Case, prob: &Prob, rtol: Tol, atol: Tol, bound: f64) -> bool {
+fn single_overlong_step(c: &Case, prob: &Prob, rtol: Tol, atol: Tol, bound: f64, comp: Option<usize>) -> bool {
+    let dist = |y: &[f64], ex: &[f64]| match comp {
+        Some(j) => (y[j] - ex[j]).abs(),
+        None => max_abs_diff(y, ex),
+    };
     let mut c2 = c.clone();
     c2.t_eval = None;
     let s = match run_one(&c2, prob, rtol, atol, None) {
@@ -107,7 +111,7 @@ fn single_overlong_step(c: &Case, prob: &Prob, rtol: Tol, atol: Tol, bound: f64)
     };
     let mut prev_err = 0.0f64;
     for i in 0..s.t.len() {
-        let e = max_abs_diff(&s.y[i], &prob.exact(s.t[i]));
+        let e = dist(&s.y[i], &prob.exact(s.t[i]));
         if e > bound {
             if i < 2 {
                 return false;
@@ -121,8 +125,32 @@ fn single_overlong_step(c: &Case, prob: &Prob, rtol: Tol, atol: Tol, bound: f64)
         }
         prev_err = e;
     }
-    // only interpolated samples exceed the bound: look for the over-long step anyway
     false
+}
+
+/// The same mechanism in its diffuse form: the error does not cross the bound at the over-long step itself
+/// (it was not small before it, or it crosses a few steps later), but one accepted step that is at least
+/// 2.5 times longer than its predecessor contributes more than half of the bound on its own.
+fn overlong_step_dominates(c: &Case, prob: &Prob, rtol: Tol, atol: Tol, bound: f64, comp: Option<usize>) -> bool {
+    let dist = |y: &[f64], ex: &[f64]| match comp {
+        Some(j) => (y[j] - ex[j]).abs(),
+        None => max_abs_diff(y, ex),
+    };
+    let mut c2 = c.clone();
+    c2.t_eval = None;
+    let s = match run_one(&c2, prob, rtol, atol, None) {
+        Ok(s) => s,
+        Err(_) => return false,
+    };
+    let e: Vec<f64> = (0..s.t.len()).map(|i| dist(&s.y[i], &prob.exact(s.t[i]))).collect();
+    if !e.iter().any(|v| *v > bound) {
+        return false;
+    }
+    (2..s.t.len()).any(|i| {
+        let h = (s.t[i] - s.t[i - 1]).abs();
+        let hp = (s.t[i - 1] - s.t[i - 2]).abs();
+        h >= 2.5 * hp && e[i] - e[i - 1] >= 0.5 * bound
+    })
 }
 
 /// Second diagnosis: the bound is violated only at a requested output time inside a step that is
@@ -130,7 +158,11 @@ fn single_overlong_step(c: &Case, prob: &Prob, rtol: Tol, atol: Tol, bound: f64)
 /// satisfies the bound.  The interpolants are of lower order than the step and are not error
 /// controlled; outside the asymptotic range their error can exceed the tolerance (SciPy's dense
 /// output behaves the same).  DESIGN.md section 5, finding K2.
-fn coarse_step_interpolation(c: &Case, prob: &Prob, rtol: Tol, atol: Tol, bound: f64, s_with: &Solution) -> bool {
+fn coarse_step_interpolation(c: &Case, prob: &Prob, rtol: Tol, atol: Tol, bound: f64, s_with: &Solution, comp: Option<usize>) -> bool {
+    let dist = |y: &[f64], ex: &[f64]| match comp {
+        Some(j) => (y[j] - ex[j]).abs(),
+        None => max_abs_diff(y, ex),
+    };
     if c.t_eval.is_none() {
         return false;
     }
@@ -141,7 +173,7 @@ fn coarse_step_interpolation(c: &Case, prob: &Prob, rtol: Tol, atol: Tol, bound:
         Err(_) => return false,
     };
     for i in 0..s.t.len() {
-        if max_abs_diff(&s.y[i], &prob.exact(s.t[i])) > bound {
+        if dist(&s.y[i], &prob.exact(s.t[i])) > bound {
             return false;
         }
     }
@@ -149,7 +181,7 @@ fn coarse_step_interpolation(c: &Case, prob: &Prob, rtol: Tol, atol: Tol, bound:
     let rate = prob.rate_t();
     // every violating requested time must sit strictly inside a coarse step
     for (t, y) in s_with.t.iter().zip(&s_with.y) {
-        if max_abs_diff(y, &prob.exact(*t)) > bound {
+        if dist(y, &prob.exact(*t)) > bound {
             let mut ok = false;
             for w in s.t.windows(2) {
                 if (t - w[0]) * d > 0.0 && (w[1] - t) * d > 0.0 && rate * (w[1] - w[0]).abs() > 1.0 {
@@ -307,6 +339,21 @@ fn radau_cubic_interpolant(c: &Case, prob: &Prob, rtol: Tol, atol: Tol, bound: f
     s_with.t.iter().zip(&s_with.y).all(|(t, y)| max_abs_diff(y, &prob.exact(*t)) <= relaxed)
 }
 
+/// Fourth diagnosis (K4): an implicit method with the default finite-difference Jacobian on a problem whose
+/// state is small in absolute terms (units 2^mag2 < 1).  The crate's increment is sqrt(eps)*max(|y_j|, 1): for
+/// |y| << 1 it is many times the state itself, the difference quotient of a nonlinear right-hand side is then
+/// no approximation of the Jacobian, Newton converges slowly and the run takes thousands of tiny steps whose
+/// errors add up.  Signature: implicit method, finite-difference Jacobian, mag2 < 0, and the identical case
+/// with the analytic Jacobian passes the whole check.
+fn fd_jacobian_small_state(c: &Case) -> bool {
+    if !c.method.implicit() || c.analytic_jac || c.prob.mag2 >= 0 {
+        return false;
+    }
+    let mut c2 = c.clone();
+    c2.analytic_jac = true;
+    matches!(check(&c2), Outcome::Pass { .. })
+}
+
 pub fn check(c: &Case) -> Outcome {
     if let Some(fs) = &c.field {
         return check_field(c, fs);
@@ -348,7 +395,7 @@ pub fn check(c: &Case) -> Outcome {
         // rounding floor: accumulated rounding of the states, and of the time variable (a time is
         // only known to an ulp; each step may shift the state by rate*|y|*ulp(t))
         let nsteps = (c.rk4_steps << 2) as f64;
-        let floor = 64.0 * f64::EPSILON * (1.0 + ymax) * nsteps.sqrt() + 8.0 * ulp(sp.x0.abs().max(sp.xend.abs())) * prob.rate_t() * ymax * nsteps.sqrt();
+        let floor = 64.0 * f64::EPSILON * (prob.mag + ymax) * nsteps.sqrt() + 8.0 * ulp(sp.x0.abs().max(sp.xend.abs())) * prob.rate_t() * ymax * nsteps.sqrt();
         // the step must resolve the fastest rate, otherwise we are not in the asymptotic range
         // (and a fixed step may even be unstable)
         let hr = prob.rate_t() * sp.len() / (c.rk4_steps as f64);
@@ -403,9 +450,10 @@ pub fn check(c: &Case) -> Outcome {
                 TolMode::PureAbs | TolMode::AbsDom => (r * 10f64.powf(if c.atol_vector { 2.0 * c.atol_q[j % c.atol_q.len()] } else { c.atol_q[0] })).max(1e-11),
                 _ => r * 10f64.powf(if c.atol_vector { c.atol_q[j % c.atol_q.len()] } else { c.atol_q[0] }),
             }).collect();
-            let mut av = av;
+            // absolute tolerances are in the units of the solution (2^mag2)
+            let mut av: Vec<f64> = av.into_iter().map(|a| a * prob.mag).collect();
             if let Some(k) = dummy_idx {
-                av[k] = 1e-2;
+                av[k] = 1e-2 * prob.mag;
             }
             (rv, av)
         };
@@ -428,7 +476,7 @@ pub fn check(c: &Case) -> Outcome {
         let ymax = ym.iter().cloned().fold(0.0, f64::max);
         let nacc = s.naccpt.max(1) as f64;
         nacc_last = s.naccpt;
-        let floor = 64.0 * f64::EPSILON * (1.0 + ymax) * nacc.sqrt() + 8.0 * ulp(sp.x0.abs().max(sp.xend.abs())) * prob.rate_t() * ymax;
+        let floor = 64.0 * f64::EPSILON * (prob.mag + ymax) * nacc.sqrt() + 8.0 * ulp(sp.x0.abs().max(sp.xend.abs())) * prob.rate_t() * ymax;
         // RADAU5 integrates with internally transformed tolerances rtol' = 0.1 rtol^(2/3),
         // atol' = rtol' * atol/rtol (documented in the solver; identical in the Fortran original):
         // when the absolute part dominates and rtol is tiny, the absolute tolerance actually used
@@ -448,12 +496,14 @@ pub fn check(c: &Case) -> Outcome {
             eprintln!("nacc={} nrej={} nfev={}", s.naccpt, s.nrejct, s.nfev);
         }
         if !emax.is_finite() || emax > bound {
-            let key = if emax.is_finite() && single_overlong_step(c, &prob, rtol_k.clone(), atol_k.clone(), bound) {
+            let key = if emax.is_finite() && (single_overlong_step(c, &prob, rtol_k.clone(), atol_k.clone(), bound, None) || overlong_step_dominates(c, &prob, rtol_k.clone(), atol_k.clone(), bound, None)) {
                 "C01-overlong-step"
-            } else if emax.is_finite() && coarse_step_interpolation(c, &prob, rtol_k.clone(), atol_k.clone(), bound, &s) {
+            } else if emax.is_finite() && coarse_step_interpolation(c, &prob, rtol_k.clone(), atol_k.clone(), bound, &s, None) {
                 "C01-coarse-step-interpolation"
             } else if emax.is_finite() && radau_cubic_interpolant(c, &prob, rtol_k.clone(), atol_k.clone(), bound, C_BOUND * kappa * nacc * radau_internal_tolscale(&rt_v, &at_v, &ym) + floor, &s) {
                 "C01-radau-cubic-interpolant"
+            } else if fd_jacobian_small_state(c) {
+                "C01-fd-jacobian-small-state"
             } else {
                 ""
             };
@@ -480,7 +530,15 @@ pub fn check(c: &Case) -> Outcome {
                 }
                 let bj = C_BOUND * kappa * (n as f64).sqrt() * nacc * ts + floor;
                 if ec[j] > bj {
-                    let key = if single_overlong_step(c, &prob, rtol_k.clone(), atol_k.clone(), bj) { "C01-overlong-step" } else { "" };
+                    let key = if single_overlong_step(c, &prob, rtol_k.clone(), atol_k.clone(), bj, Some(j)) || overlong_step_dominates(c, &prob, rtol_k.clone(), atol_k.clone(), bj, Some(j)) {
+                        "C01-overlong-step"
+                    } else if coarse_step_interpolation(c, &prob, rtol_k.clone(), atol_k.clone(), bj, &s, Some(j)) {
+                        "C01-coarse-step-interpolation"
+                    } else if fd_jacobian_small_state(c) {
+                        "C01-fd-jacobian-small-state"
+                    } else {
+                        ""
+                    };
                     return Outcome::viol_key(key, format!(
                         "{}: component {} error {:e} exceeds {}*kappa*sqrt(n)*naccpt*(atol_j + rtol_j*|y_j|) + floor = {:e} (decoupled problem; rtol {:?}, atol {:?})",
                         name, j, ec[j], C_BOUND, bj, rt_v, at_v
@@ -519,7 +577,7 @@ fn positive_spec(nmax: usize) -> BoxedStrategy<ProbSpec> {
         ],
         1..=nmax,
     ))
-        .prop_map(|(warp, blocks)| ProbSpec { blocks, warp, mix: None })
+        .prop_map(|(warp, blocks)| ProbSpec { blocks, warp, mix: None, mag2: 0 })
         .boxed()
 }
 
@@ -536,10 +594,15 @@ pub fn strategy() -> BoxedStrategy<Case> {
             any::<bool>(),
             proptest::option::weighted(0.35, t_eval_fracs(12)),
             any::<bool>(),
-            (prop_oneof![Just(25u32), Just(50), Just(100), Just(200)], prop_oneof![Just(0.0), fr(0.05, 0.95)], 0u8..3),
+            (prop_oneof![Just(25u32), Just(50), Just(100), Just(200)], prop_oneof![Just(0.0), fr(0.05, 0.95)], 0u8..3, prop_oneof![2 => Just(0i32), 1 => -40i32..=40]),
         )
-            .prop_map(move |(prob, span, method, e, rtol_vec, atol_q, atol_vector, t_eval, analytic_jac, (rk4_steps, rk4_frac, dummy))| {
+            .prop_map(move |(mut prob, span, method, e, rtol_vec, atol_q, atol_vector, t_eval, analytic_jac, (rk4_steps, rk4_frac, dummy, mag2))| {
                 let e = if method == Meth::RK23 { 3.0 + (e - 3.0) * 0.5 } else { e };
+                // a third of the cases in other units: the state (and every absolute tolerance) times 2^mag2, 1e-12..1e12
+                prob.mag2 = mag2;
+                // finding K4 (finite-difference Jacobian of a state that is small in absolute terms) is excluded by
+                // construction: those cases use the analytic Jacobian
+                let analytic_jac = analytic_jac || (method.implicit() && mag2 < 0);
                 Case { prob, span, method, e, rtol_vec, atol_q, atol_vector, mode: mode.clone(), t_eval, analytic_jac, rk4_steps, rk4_frac, dummy, field: None }
             })
     };
@@ -579,7 +642,7 @@ pub fn run(ctx: &Ctx, known: &[Known]) -> Report {
     let stats = run_generated(ctx, "C01", "gen", &strategy, &check, cases, known);
     Report {
         id: "C01".into(),
-        rule: "cases = closed-form problems (stacked linear / logistic / Riccati / Bernoulli / planar blocks, n<=8, composed with a monotone time-warp and a well-conditioned linear mixing) x spans (both directions) x six methods; error-controlled methods run a tolerance ladder rtol, rtol/100, rtol/10^4 starting at 1e-3..1e-7 (RK23 1e-3..1e-5), atol scalar or per component, rtol scalar or per component, also pure absolute (rtol = 0), absolute-dominated (rtol = 1e-11, atol spread over 6 decades, optionally an identically-zero first/last component carrying a loose atol = 1e-2) and pure relative (atol = 0, positive solutions) control, with or without t_eval; 1/13 of the cases use randomly generated smooth dissipative vector fields y' = -Dy + B tanh(Wy+c) + s sin(wt+psi) (n<=6, contractive) checked against the harness's own Richardson-extrapolated RK4 reference integrator; RK4 runs 25..200 steps (half of the time with a step that does not divide the span, so the last step is clipped) and two halvings. Oracle: every sample against the exact solution, bound 100*kappa*naccpt*tolscale + rounding floor at every rung; per-component bound for decoupled problems; (rungs where the error grew more than 10x after tightening are counted in the evidence, not asserted); RK4 observed order >= 3.2 (minimum seen over 3e4 RK4 cases: 3.57) when the step resolves the fastest rate (h*rate <= 0.2). Non-trivial = Success, at least 3 accepted steps, some sample error above the rounding floor (RK4: at least one usable order estimate). Distinct = distinct canonical JSON.".into(),
+        rule: "cases = closed-form problems (stacked linear / logistic / Riccati / Bernoulli / planar blocks, n<=8, composed with a monotone time-warp and a well-conditioned linear mixing, a third of them in units of 2^-40..2^40 (state and absolute tolerances scaled together)) x spans (both directions) x six methods; error-controlled methods run a tolerance ladder rtol, rtol/100, rtol/10^4 starting at 1e-3..1e-7 (RK23 1e-3..1e-5), atol scalar or per component, rtol scalar or per component, also pure absolute (rtol = 0), absolute-dominated (rtol = 1e-11, atol spread over 6 decades, optionally an identically-zero first/last component carrying a loose atol = 1e-2) and pure relative (atol = 0, positive solutions) control, with or without t_eval; 1/13 of the cases use randomly generated smooth dissipative vector fields y' = -Dy + B tanh(Wy+c) + s sin(wt+psi) (n<=6, contractive) checked against the harness's own Richardson-extrapolated RK4 reference integrator; RK4 runs 25..200 steps (half of the time with a step that does not divide the span, so the last step is clipped) and two halvings. Oracle: every sample against the exact solution, bound 100*kappa*naccpt*tolscale + rounding floor at every rung; per-component bound for decoupled problems; (rungs where the error grew more than 10x after tightening are counted in the evidence, not asserted); RK4 observed order >= 3.2 (minimum seen over 3e4 RK4 cases: 3.57) when the step resolves the fastest rate (h*rate <= 0.2). Non-trivial = Success, at least 3 accepted steps, some sample error above the rounding floor (RK4: at least one usable order estimate). Distinct = distinct canonical JSON.".into(),
         assumptions: vec![
             "kappa = cond(S) * max block amplification bound (a priori, from the closed forms)".into(),
             "a non-Success status is not a C01 violation (C03/C14 own it); it makes the case trivial".into(),
